@@ -887,6 +887,20 @@ void rc_generate (VChoices *c, const ProgSpec *ps, const RunOpts *o, RunCfg *rc)
       }
     }
   }
+  /* resampling loads: keep b + c*(n-1) inside 31 bits (the position is a 32-bit int), shrinking n if needed */
+  for (i = 0; i < ps->nvars; i++) {
+    const PVar *v = &ps->vars[i];
+    if ((v->kind == VK_SRC) && v->res_b >= 0 && !ps->const_n) {
+      int64_t b = (int32_t) (ps->vars[v->res_b].kind == VK_CONST ? ps->vars[v->res_b].cval : rc->pval[v->res_b]);
+      int64_t cc = (int32_t) (ps->vars[v->res_c].kind == VK_CONST ? ps->vars[v->res_c].cval : rc->pval[v->res_c]);
+      if (cc > 0 && b + cc * (int64_t) rc->n > 0x7fff0000LL) {
+        int64_t nmax = (0x7fff0000LL - b) / cc;
+        if (nmax < ps->n_min) nmax = ps->n_min;
+        if (ps->n_mult) nmax -= nmax % ps->n_mult;
+        rc->n = (int) nmax;
+      }
+    }
+  }
   if (o->exhaustive_pairs) {
     /* operands take every byte pair (n = 65536): s1[i] = i & 255, s2[i] = i >> 8 */
     int ns = 0;
